@@ -39,8 +39,9 @@ var (
 func gen(t *rapid.T) Case {
 	c := Case{Trace: rapid.Bool().Draw(t, "trace")}
 	nobj := 2
+	var lastMWs []int
 	mws := func(max int) []int {
-		return rapid.SliceOfN(rapid.IntRange(0, 7), 0, max).Draw(t, "mws")
+		return rapid.SliceOfN(rapid.IntRange(0, 3), 0, max).Draw(t, "mws")
 	}
 	for i, n := 0, rapid.IntRange(1, rig.Up(20)).Draw(t, "nsteps"); i < n; i++ {
 		var s Step
@@ -49,6 +50,15 @@ func gen(t *rapid.T) Case {
 			s = Step{Kind: "use", Router: rapid.IntRange(0, 1).Draw(t, "router"), MWs: rapid.SliceOfN(rapid.IntRange(0, 7), 1, 2).Draw(t, "usemws")}
 		case k < 7:
 			s = Step{Kind: "mkprefix", Obj: rapid.IntRange(0, nobj-1).Draw(t, "parent"), Text: rapid.SampledFrom(prefixTexts).Draw(t, "ptext"), MWs: mws(2)}
+			if nobj > 2 && rapid.Bool().Draw(t, "nestUnderFacade") {
+				s.Obj = rapid.IntRange(2, nobj-1).Draw(t, "facadeParent") // nest under an existing Prefix object
+			}
+			if len(lastMWs) > 0 && rapid.Bool().Draw(t, "sameCommonList") {
+				s.MWs = lastMWs // the caller's "common" list again (the harness hands out one slice per list)
+			}
+			if len(s.MWs) > 0 {
+				lastMWs = s.MWs
+			}
 			nobj++
 		case k < 9:
 			s = Step{Kind: "mkresource", Obj: rapid.IntRange(0, nobj-1).Draw(t, "parent"), Text: rapid.SampledFrom(suffixes).Draw(t, "rtext"), MWs: mws(2)}
@@ -133,9 +143,18 @@ func check(c Case, st *rig.Stats) error {
 	env := rig.NewEnv()
 	mwName := func(i int) string { return fmt.Sprintf("m%d", i) }
 	mwObjs := map[int]types.Middleware[*rig.H]{}
+	// one slice per distinct middleware list, with spare capacity, handed to every call that asks for
+	// that list: what callers do with a shared "common" slice
+	shared := map[string][]types.Middleware[*rig.H]{}
+	sharedNames := map[string][]string{}
 	mk := func(ids []int) ([]types.Middleware[*rig.H], []string) {
-		var ms []types.Middleware[*rig.H]
+		key := fmt.Sprint(ids)
+		if ms, ok := shared[key]; ok {
+			return ms, sharedNames[key]
+		}
+		ms := make([]types.Middleware[*rig.H], 0, len(ids)+3)
 		var ns []string
+		defer func() { shared[key], sharedNames[key] = ms, ns }()
 		for _, i := range ids {
 			if mwObjs[i] == nil {
 				mwObjs[i] = env.NewMW(mwName(i))
